@@ -1131,10 +1131,22 @@ def _v_mutate(env, t, step):
     n_before = set(t.scope)
     # a mutate that overwrites a visible column keeps its position?  documented: adds
     # new columns; the implementation appends.  (checked against both backends)
+    from .ir import AGG_OPS, WIN_OPS
+
+    const_before = set(t.const_cols)
+    is_const = []
+    for name, e in step["items"]:
+        c = True
+        for nd in walk_expr(e):
+            if nd[0] == "col" and ev.resolve(nd[1]) not in const_before:
+                c = False
+            if nd[0] == "fn" and nd[1] in (AGG_OPS | WIN_OPS):
+                c = False
+        is_const.append(c)
     _new_cols(env, t, step["items"], vecs)
     vis = t.vis()
-    for name, e in step["items"]:
-        if not any(nd[0] == "col" for nd in walk_expr(e)):
+    for (name, e), c in zip(step["items"], is_const):
+        if c:
             t.const_cols.add(vis[name])
 
 
@@ -1279,14 +1291,28 @@ def _v_collect(env, t, step):
     t.limited = False
 
 
+def _v_rematerialize(env, t, step):
+    """Table(export(t)): a new source table holding the visible data (fresh column ids)."""
+    vis = {c for _, c in t.visible}
+    m = {c: env.new_id() for c in vis}
+    t.data = {m[c]: v for c, v in t.data.items() if c in m}
+    t.fam = {m[c]: v for c, v in t.fam.items() if c in m}
+    t.dtype = {m[c]: v for c, v in t.dtype.items() if c in m}
+    t.visible = [(n, m[c]) for n, c in t.visible]
+    t.scope = set(m.values())
+    t.group = []
+    t.idcols = [m[c] for c in t.idcols if c in m]
+    t.agg_cols, t.const_cols = set(), set()
+    t.nodes = frozenset([step["out"]])
+    t.limited = False
+
+
 def _v_transfer(env, t, step):
     ref = env.vars[step["ref"]]
     rv = ref.vis()
     for n, _ in t.visible:
         if n not in rv:
             raise RefReject("ValueError", f"{n} missing in ref_source")
-    if t.hidden():
-        raise OutOfDomain("transfer_col_references with hidden columns")
     m = {c: rv[n] for n, c in t.visible}
     if len(set(m.values())) != len(m):
         raise RefBug("transfer map not injective")
